@@ -166,7 +166,7 @@ def in_slice(prop, m, lines):
     if prop == "C15":
         return True
     if prop == "C11":
-        return any(l.startswith(("reopen", "clear")) for l in lines[: m.idx + 1]) or m.what == "writes" or kind == "hash"
+        return any(l.startswith(("reopen", "clear", "overwrite")) for l in lines[: m.idx + 1]) or m.what == "writes" or kind == "hash"
     if prop == "C14":
         return w[0] == "?" or kind == "hash"
     if m.what == "writes":
